@@ -5,16 +5,50 @@
 From Coq Require Import Sorting.Sorted.
 From DicomV Require Import Base.Endian Model.Vr Model.Header Model.Prim Model.Dataset Model.Writer Model.Reader
   Spec.Ps35 Proofs.HeaderP Proofs.PrimP Proofs.WriterP Proofs.ValidP Proofs.FlatP Proofs.ValueP Proofs.ReaderP
-  Proofs.RoundTripP Proofs.RewriteP Proofs.ReadStepsP Proofs.CanonTreeP.
+  Proofs.RoundTripP Proofs.RewriteP Proofs.ReadStepsP Proofs.CanonTreeP Proofs.CanonTreeGP.
 Open Scope N_scope.
 
-(** Full statement (kept visible): for every canonical data set [es] (nested
-    sequences/items with explicit or undefined lengths, pixel fragments). *)
-Definition C02_full_statement : Prop :=
-  forall (canonical : codec -> dict_t -> list celem -> Prop) c d es,
-    canonical c d es ->
-    exists obj, read_dataset c d (canon_encode c es) = Ok obj /\
-                write_dataset c true false obj = Ok (canon_encode c es).
+(** The property's FIRST sentence: for every canonical data set [es] (nested
+    sequences and items of any depth, each flagged EXPLICIT or undefined length
+    independently, encapsulated pixel data), reading the reference stream and
+    writing the object back keeping recorded lengths (NoChange) reproduces the
+    stream exactly. [canonical_g] (Proofs/CanonTreeGP.v): canonical value
+    fields, ascending tags in every element list, sequence tags outside group
+    FFFE and not Pixel Data, no Pixel Representation element, explicit contents
+    even and shorter than 2^32-1 bytes, and for an explicit-length sequence the
+    reader must see VR SQ (always in explicit VR; by dictionary in implicit VR).
+    Proof: the reference encoding, whose lengths the SPEC computed, equals the
+    NoChange writer's direct encoding of the object [of_c_g] that records those
+    lengths; every successful encoding of a sub-tree is the reference encoding,
+    so the recorded lengths are the actual ones, which is what the reader's
+    position-based end detection needs (C01's general round trip). *)
+Theorem C02_nesting : forall c d es,
+  delim_ok c d -> Forall (canonical_g c d) es -> StronglySorted tag_lt (map ctag es) ->
+  exists obj, read_dataset c d (canon_encode c es) = Ok obj /\
+              write_dataset c true false obj = Ok (canon_encode c es).
+Proof. intros c d es. exact (read_rewrite_tree_g c d es). Qed.
+
+(** Non-vacuity: explicit-length sequence holding an explicit item (with a nested
+    undefined sequence) and an undefined item; the theorem's conclusion computed. *)
+Example C02_explicit_nonvacuous :
+  let d : dict_t := fun _ => None in
+  let es := [ CPrim (16, 16) PN [68; 111; 101; 32];
+              CSeq (64, 629) true [ (true, [CPrim (8, 256) SH [65; 32]; CSeq (8, 4416) false [(true, [])]]); (false, []) ] ] in
+  delim_ok ELE d /\ Forall (canonical_g ELE d) es /\ StronglySorted tag_lt (map ctag es) /\
+  match read_dataset ELE d (canon_encode ELE es) with
+  | Ok obj => write_dataset ELE true false obj = Ok (canon_encode ELE es)
+              /\ write_dataset ELE false false obj <> Ok (canon_encode ELE es)
+  | _ => False
+  end.
+Proof.
+  cbv zeta. split; [reflexivity|]. split; [|split].
+  - repeat constructor; unfold canon_val, wf_tag, wf_bytes, size_ok; cbn;
+      repeat (split || constructor); cbn; try reflexivity; try discriminate; try lia; try (intros; discriminate);
+      try (intros; congruence); try (intros H; exfalso; apply H; reflexivity);
+      try (unfold tag_lt, tag_ltb; reflexivity).
+  - repeat constructor; unfold tag_lt, tag_ltb; reflexivity.
+  - vm_compute. split; [reflexivity | discriminate].
+Qed.
 
 (** Proved part (flat canonical streams, any codec): reading the reference
     stream and writing the object back, with either strategy, reproduces the
@@ -86,6 +120,10 @@ Proof.
   - vm_compute. reflexivity.
 Qed.
 
+Check C02_nesting : forall c d es,
+  delim_ok c d -> Forall (canonical_g c d) es -> StronglySorted tag_lt (map ctag es) ->
+  exists obj, read_dataset c d (canon_encode c es) = Ok obj /\
+              write_dataset c true false obj = Ok (canon_encode c es).
 Check C02_undefined_nesting : forall c d nochange es,
   delim_ok c d -> Forall (canonical c d) es -> StronglySorted tag_lt (map ctag es) ->
   exists obj, read_dataset c d (canon_encode c es) = Ok obj /\
@@ -94,6 +132,7 @@ Check C02_flat_partial : forall c d nochange es,
   canon_flat c d es -> StronglySorted tag_lt (map ctag es) ->
   exists obj, read_dataset c d (canon_encode c es) = Ok obj /\
               write_dataset c nochange false obj = Ok (canon_encode c es).
+Print Assumptions C02_nesting.
 Print Assumptions C02_undefined_nesting.
 Print Assumptions C02_flat_partial.
 Print Assumptions C02_element.
